@@ -42,7 +42,7 @@ func init() {
 		Gen:         c18Gen,
 		Race:        func(t string) bool { return t == "thorough" },
 		InChild:     func(string) int { return 4 },
-		CaseTimeout: 120 * time.Second,
+		CaseTimeout: 400 * time.Second,
 		ChildSetup:  c18Setup,
 		Require: func(tier string) map[string]int64 {
 			return map[string]int64{"stream_bytes_checked": 20000000, "eof_cases": 40, "wrong_type_cases": 12, "deadline_idle_branch_seen": 30, "deadline_active_branch_seen": 30, "deadline_reset_then_round_trip": 30, "streams_of_more_than_1000_writes": 8}
@@ -216,7 +216,7 @@ func c18Run(r *fw.R, d c18Desc) {
 
 // pump writes the stream of direction dir with the given write sizes, reads it
 // on the other side with the given buffer sizes, and verifies every byte.
-func c18Pump(r *fw.R, what string, w, rd net.Conn, dir uint64, writes, reads []int) bool {
+func c18Pump(ctx context.Context, r *fw.R, what string, w, rd net.Conn, dir uint64, writes, reads []int) bool {
 	var total int64
 	for _, n := range writes {
 		total += int64(n)
@@ -260,6 +260,13 @@ func c18Pump(r *fw.R, what string, w, rd net.Conn, dir uint64, writes, reads []i
 			break
 		}
 		if err != nil {
+			if ctx.Err() != nil {
+				// (the harness's own budget for the connection ran out - hundreds of thousands of tiny reads on a loaded
+				// machine: no verdict. The thorough tier alarmed here once, with three sweeps running beside it.)
+				r.Inconclusivef("%s: the scenario's own context ended at offset %d of %d (%v)", what, off, total, err)
+				ok = false
+				break
+			}
 			r.Violate("C18/stream-read-failed", fmt.Sprintf("%s: Read failed at offset %d of %d: %v", what, off, total, err), "")
 			ok = false
 			break
@@ -271,8 +278,10 @@ func c18Pump(r *fw.R, what string, w, rd net.Conn, dir uint64, writes, reads []i
 		}
 	}
 	wg.Wait()
-	if werr != nil {
+	if werr != nil && ctx.Err() == nil {
 		r.Violate("C18/stream-write-failed", what+": "+werr.Error(), "")
+		ok = false
+	} else if werr != nil {
 		ok = false
 	}
 	if ok {
@@ -282,7 +291,7 @@ func c18Pump(r *fw.R, what string, w, rd net.Conn, dir uint64, writes, reads []i
 }
 
 func c18StreamPair(r *fw.R, d c18Desc) {
-	ctx, cancel := context.WithTimeout(context.Background(), 100*time.Second)
+	ctx, cancel := context.WithTimeout(context.Background(), 360*time.Second)
 	defer cancel()
 	cm := websocket.CompressionMode(d.CM)
 	cl, sv, _, _, _, err := libPair(ctx, cm, cm, 0, xport.Plan{Seed: d.Seed, ReadMax: int(d.Seed % 3000), NoTap: true}, xport.Plan{Seed: d.Seed + 1, NoTap: true})
@@ -298,8 +307,8 @@ func c18StreamPair(r *fw.R, d c18Desc) {
 	what := fmt.Sprintf("lib<->lib cm=%d type=%v", d.CM, typ)
 	var wg sync.WaitGroup
 	wg.Add(2)
-	go func() { defer wg.Done(); c18Pump(r, what+" client->server", a, b, 1, d.Writes, d.Reads) }()
-	go func() { defer wg.Done(); c18Pump(r, what+" server->client", b, a, 2, d.Writes, d.Reads) }()
+	go func() { defer wg.Done(); c18Pump(ctx, r, what+" client->server", a, b, 1, d.Writes, d.Reads) }()
+	go func() { defer wg.Done(); c18Pump(ctx, r, what+" server->client", b, a, 2, d.Writes, d.Reads) }()
 	wg.Wait()
 	for _, w := range d.Writes {
 		for _, rd := range d.Reads {
@@ -326,7 +335,7 @@ func c18StreamRaw(r *fw.R, d c18Desc) {
 	defer peerEnd.Close()
 	peer := newRawPeer(peerEnd, d.Role, p, d.Seed)
 	peer.Start()
-	ctx, cancel := context.WithTimeout(context.Background(), 100*time.Second)
+	ctx, cancel := context.WithTimeout(context.Background(), 360*time.Second)
 	defer cancel()
 	typ := msgType(d.Text)
 	nc := websocket.NetConn(ctx, c, typ)
@@ -381,6 +390,10 @@ func c18StreamRaw(r *fw.R, d c18Desc) {
 		}
 		off += int64(n)
 		if err != nil {
+			if ctx.Err() != nil {
+				r.Inconclusivef("%s: the scenario's own context ended at offset %d of %d (%v)", what, off, total, err)
+				return
+			}
 			r.Violate("C18/stream-read-failed", fmt.Sprintf("%s: Read failed at offset %d of %d: %v", what, off, total, err), "")
 			return
 		}
